@@ -140,6 +140,17 @@ func init() {
 		err := v.Valid()
 		e["valid"] = err == nil
 		e["is"] = semIs(err)
+		e["core"] = verEv(v.Core())
+		e["iszero"] = v.IsZero()
+		// sem.New with 0..3 trailing strings: more than two panic
+		news := []any{}
+		for n := 0; n <= 3; n++ {
+			extra := []string{v.PreRelease, v.Build, "x"}[:n]
+			var nv sem.Ver
+			p := try(func() { nv = sem.New(v.Major, v.Minor, v.Patch, extra...) })
+			news = append(news, Ev{"panic": p, "v": verEv(nv)})
+		}
+		e["news"] = news
 		t, _ := sem.DefaultFormatter(nil, v, 0)
 		tt, _ := sem.DefaultFormatter(nil, v, sem.FormatTag)
 		e["text"], e["texttag"] = B(t), B(tt)
